@@ -167,6 +167,7 @@ class Rig:
             finally:
                 self.events.append(["end", nid, self.clock()])
             if node.get("ret") is not None:
+                self.events.append(["ret", nid, node["ret"]])
                 return self.handles[node["ret"]]   # the action hands back the disposable of follow-up work it scheduled
             return None
 
@@ -697,3 +698,37 @@ def ret_ok(node):
     if node.get("ret") is not None and node["ret"] not in [k["id"] for k in kids]:
         return False
     return all(ret_ok(k) for k in kids)
+
+
+class HandleTracker:
+    """what the oracles know about handles, from the event trace alone: which actions are pending, which pending ones are
+    cancelled — directly, or because the handle of an action that RETURNED their handle was disposed (transitively)"""
+
+    def __init__(self):
+        self.pending = {}      # id -> payload
+        self.cancelled = set()
+        self.links = {}        # id -> id whose handle it returned
+        self.dead = set()      # handles disposed
+        self.known = set()
+        self.ncancel = 0       # cancellations of pending items (upper bound on silently skipped items)
+
+    def sched(self, nid, payload):
+        self.pending[nid] = payload
+        self.known.add(nid)
+        self.cancelled.discard(nid)
+
+    def cancel(self, nid):
+        seen = set()
+        while nid is not None and nid not in seen:
+            seen.add(nid)
+            if nid in self.known:
+                self.dead.add(nid)
+            if nid in self.pending and nid not in self.cancelled:
+                self.cancelled.add(nid)
+                self.ncancel += 1
+            nid = self.links.get(nid)
+
+    def ret(self, nid, cid):
+        self.links[nid] = cid
+        if nid in self.dead:
+            self.cancel(cid)
